@@ -66,11 +66,23 @@ impl VM {
                 .collect::<Vec<_>>()
                 .join(",")
         };
+        // which objects the collector manages is part of the state: two sessions whose values look alike
+        // but differ in who owns them have different futures
+        let (managed, _) = self.gc.verif_state();
+        let mut owned: Vec<String> = self
+            .globals
+            .iter()
+            .filter(|o| o.is_heap_allocated())
+            .map(|o| format!("{}:{}", crate::verif::render(*o), managed.contains(&(o.as_ptr() as usize))))
+            .collect();
+        owned.sort();
         format!(
-            "stack=[{}] globals=[{}] frames={:?}",
+            "stack=[{}] globals=[{}] frames={:?} managed={} owned={:?}",
             r(&self.stack),
             r(&self.globals),
-            self.frames
+            self.frames,
+            managed.len(),
+            owned
         )
     }
 
